@@ -243,4 +243,36 @@ theorem reqOk_modify (w : World) (r : Req) (hn : w.Nodup) (he : ∀ e ∈ w, isE
       simp only [specApply]
       exact ⟨fun h' => ⟨h', fun e' => this (e' ▸ h')⟩, fun h' => h'.1⟩
 
+/-- the in-memory set is a well-formed set of entries -/
+def MemOk (w : World) : Prop := w.Nodup ∧ ∀ e ∈ w, isEntryLine e = true
+
+theorem run_discardOps_path (path : Name) (chunks : List (List Line)) (fs : Fs) :
+    run (discardOps path chunks) fs path = fs path := by
+  rw [discardOps_eq]
+  apply run_other (tmpName path) path _ fs _ (tmpName_ne path).symm
+  intro op h
+  rcases List.mem_append.1 h with h | h
+  · exact preOps_onlyOn path chunks op h
+  · simp at h; subst h; simp [OnlyOn]
+
+/-- a successful flush brings the file in step with the in-memory set, whatever was on disk before -/
+theorem flush_resyncs (layout : World → List (List Line)) (hl : LayoutOk layout) (path : Name) (w : World) (fs : Fs)
+    (hw : MemOk w) : Synced w (run (flushOps path (layout w)) fs) path := by
+  refine ⟨hw.1, hw.2, _, (run_flushOps path (layout w) fs).1, fun e => ?_⟩
+  rw [mem_parse, hl w e]
+  exact ⟨fun h => h.1, fun h => ⟨h, hw.2 e h⟩⟩
+
+theorem updateF_step (layout : World → List (List Line)) (path : Name) (w : World) (r : Req) (fails : Bool)
+    (hw : MemOk w)
+    (hr : match r with | .add k s => KeyOk k ∧ SlotOptOk s | .remove k s => KeyOk k ∧ SlotOptOk s) :
+    MemOk (updateWorldsetF layout path w r fails).1 ∧
+    ∀ e, e ∈ (updateWorldsetF layout path w r fails).1 ↔ specApply (· ∈ w) r e := by
+  have hm := reqOk_modify w r hw.1 hw.2 hr
+  unfold updateWorldsetF
+  cases hmod : modify w r with
+  | none => exact ⟨hw, hm.2 hmod⟩
+  | some w' =>
+    obtain ⟨h1, h2, h3⟩ := hm.1 w' hmod
+    exact ⟨⟨h1, h2⟩, h3⟩
+
 end Pkgcore.C30
